@@ -51,7 +51,7 @@ def _build(cls, base, session, uid):
 
 class Pipe(object):
 
-    def __init__(self, client_dir, remote_dir):
+    def __init__(self, client_dir, remote_dir, pre_stage=None):
         self._n_comp = len(rpu_component._components)
         self.sess  = HollowSession(sandbox=client_dir)
         self.net   = self.sess.net
@@ -61,6 +61,15 @@ class Pipe(object):
             sub.stop()
 
         pilot = real_pilot(HollowPmgr(self.sess), PID, sandbox=remote_dir)
+        # the application may have used the pilot for pilot-level staging before it hands it to
+        # the task manager (real Pilot.stage_in; the pilot manager's transfer request is recorded)
+        self.pre_targets = None
+        if pre_stage:
+            sent = []
+            pilot._pmgr._pilot_staging_input = lambda pid, sds: sent.append((pid, sds))
+            self.pre_targets = [str(t) for t in pilot.stage_in(
+                [{'source': 'client:///%s' % name, 'target': '%s:///%s' % (loc, name),
+                  'action': 'Transfer'} for loc, name in pre_stage])]
         self.pilot = pilot.as_dict()     # what add_pilots hands to the scheduler
 
         self.sess._reg['cfg.session_sandbox'] = \
